@@ -6,10 +6,10 @@ called from the public in_recode / out_recode strings), hand the recorded draws 
 (Model/MonteCarlo.v) and require predicted_outcomes, the per-step frames and the baseline table to equal the
 model's EXACTLY; evaluate the boolean specification in Coq on the rows the implementation produced; check the
 invariants directly on the implementation's output as well."""
-import os
 import random
 import sys
 import types
+import warnings
 from fractions import Fraction
 
 import numpy as np
@@ -21,11 +21,12 @@ PROP_FILE = 'theories/Properties/C13.v'
 MODEL_FILES = ['theories/Model/MonteCarlo.v']
 GEN_GROUPS = []
 RULE = ('random long-format person-period data (40-120 ids, 2-5 periods, binary baseline W, binary L1, binary or continuous L2, '
-        'binary exposure/outcome, drop-out, shuffled or default index, optional integer weights) x plan (all, none, natural, custom '
+        'binary exposure/outcome, drop-out, shuffled or default index, optional integer weights, times stored as int or float) x plan (all, none, natural, custom '
         'rule from a small expression language incl. rules on lagged exposure, time and a continuous covariate) x 0/1/2 covariate '
         'models (labels in/out of call order, ties) x censoring model on/off x lags (none, simple, chained, badly ordered chain) x '
         'low_memory on/off (plus paired runs of both on one seed) x sample 20..300 x t_max (data maximum, 1, 2, beyond the data) '
-        'x numpy seed; every draw of np.random inside _predict and the rows drawn by DataFrame.sample are recorded and replayed '
+        'x numpy seed; plus EVERY 0/1 draw stream of tiny runs (1-3 individuals, 2-3 steps) dictated to _predict depth-first; every draw of '
+        'np.random inside _predict and the rows drawn by DataFrame.sample are recorded and replayed '
         'through the Coq model; non-trivial = distinct (configuration, data seed, numpy seed) whose fit() completed')
 TRUSTED = ['run-time wrappers around MonteCarloGFormula._predict and pandas.DataFrame.sample (record the draw stream) and the recorder '
            'module called from the public in_recode/out_recode strings',
@@ -35,7 +36,6 @@ TRUSTED = ['run-time wrappers around MonteCarloGFormula._predict and pandas.Data
 
 VARS = ['A', 'L1', 'L2', 'W', 'lag_A', 'lag_L1', 'lag_L2', 'lag2_A']
 CODE = {v: i for i, v in enumerate(VARS)}
-DEV_PATCH = os.environ.get('VERIF_C13_DEVPATCH', '') == '1'     # OFF by default; no patch is currently needed
 
 
 # ------------------------------------------------------------------------------------------------ data
@@ -73,6 +73,9 @@ def gen_long(spec):
     if not spec['cont_L2']:
         df['L2'] = df['L2'].astype(int)
         df['lag_L2'] = df['lag_L2'].astype(int)
+    if spec.get('float_time'):          # whole-number times stored as floats (t_max then comes out of np.max as a float)
+        df['t_in'] = df['t_in'].astype(float)
+        df['t_out'] = df['t_out'].astype(float)
     return df
 
 
@@ -175,8 +178,9 @@ def gen_spec(rng, k, quick):
     spec['paired'] = rng.random() < 0.35
     spec['spy'] = rng.random() < 0.85
     spec['sample'] = rng.choice([20, 20, 25, 33, 50, 64, 100, 150] + ([300] if (k % 10 == 0 or not quick) else [80]))
-    spec['t_max'] = rng.choice([None, None, None, 1, 2, 'beyond'])
+    spec['t_max'] = rng.choice([None, None, None, None, 1, 2, 2, 'beyond', 'beyond'])
     spec['itt_restriction'] = rng.random() < 0.2
+    spec['float_time'] = rng.random() < 0.15
     return spec
 
 
@@ -184,8 +188,16 @@ def gen_spec(rng, k, quick):
 class Spy:
     """records DataFrame.sample, every _predict result and the frames handed to the recorder strings"""
 
-    def __init__(self):
+    def __init__(self, forced=None):
         self.draws, self.samples, self.ins, self.outs = [], [], [], []
+        self.forced = None if forced is None else list(forced)     # exhaustive part: the 0/1 draws are dictated, in order
+        self.consumed = 0
+
+    def take(self, n):
+        bits = self.forced[self.consumed:self.consumed + n]
+        bits += [0] * (n - len(bits))
+        self.consumed += n
+        return np.array(bits, dtype=int)
 
     def __enter__(self):
         from zepid.causal.gformula import MonteCarloGFormula
@@ -197,6 +209,8 @@ class Spy:
 
         def predict(df, model, variable):
             out = fn(df=df, model=model, variable=variable)
+            if spy.forced is not None:
+                out = spy.take(len(out))
             spy.draws.append((len(df), variable, np.array(out, copy=True)))
             return out
 
@@ -257,7 +271,7 @@ def fit_once(spec, g, df, lm):
     kw = {}
     if spec['spy']:
         kw = {'in_recode': "__import__('verif_rec').rec('in',g)", 'out_recode': "__import__('verif_rec').rec('out',g)"}
-    with Spy() as spy:
+    with Spy(spec.get('forced')) as spy:
         np.random.seed(spec['np_seed'])
         try:
             g.fit(plan, lags=dict(lags) if lags else None, sample=spec['sample'], t_max=t_arg, low_memory=lm, **kw)
@@ -266,7 +280,7 @@ def fit_once(spec, g, df, lm):
             return {'error': '%s: %s' % (type(e).__name__, str(e)[:200]), 'traceback': traceback.format_exc()[-1500:]}
     po = g.predicted_outcomes
     return {'po': po.copy(), 'draws': spy.draws, 'samples': spy.samples, 'ins': spy.ins, 'outs': spy.outs, 'T': T,
-            'po_index_ok': list(po.index) == list(range(len(po)))}
+            'po_index_ok': list(po.index) == list(range(len(po))), 'consumed': spy.consumed}
 
 
 # ------------------------------------------------------------------------------------------------ Coq terms
@@ -298,6 +312,7 @@ def exact(x):
 
 
 PREAMBLE = '''
+Open Scope Z_scope.
 Definition NV := %d%%nat.
 Definition VARS := seq 0 NV.
 Definition mkenv (l : list Q) : env := combine VARS l.
@@ -362,7 +377,7 @@ def qv(x):
     return q(fr)
 
 
-def coq_case(spec, obs, T, po_full, po_low):
+def coq_case(spec, obs, T, po_full, po_low, shared=False):
     '''the Coq expression of one run: configuration, long data, recorded picks and draws, implementation rows'''
     covs = COV_ORDERS.get(spec['covs'], [])
     lags = LAGS[spec['lags']] or []
@@ -384,6 +399,8 @@ def coq_case(spec, obs, T, po_full, po_low):
 
     def zll(ll):
         return '[' + ';'.join('[' + ';'.join(z(x) for x in l) + ']' for l in ll) + ']'
+    if shared == 'defs':
+        return 'Definition xlong := %s.\nDefinition xbase := %s.\n' % (lrows(obs['long']), lrows(obs['base']))
     picks = '[' + ';'.join('%d' % p for p in obs['picks']) + ']%nat'
     draws = '[' + ';\n '.join('[' + ';'.join('dr [%s] %s %s %s' % (';'.join(qv(c) for c in d[0]), b(d[1]), b(d[2]), b(d[3])) for d in st) + ']'
                               for st in obs['udraws']) + ']'
@@ -393,7 +410,8 @@ def coq_case(spec, obs, T, po_full, po_low):
     uin = zll([[r['uid'] for r in st] for st in obs['in_steps']]) if spy else '[]'
     uout = zll([[r['uid'] for r in st] for st in obs['trace_steps']]) if spy else '[]'
     return 'report %s %d%%nat %s\n %s\n %s\n %s\n %s\n %s %s\n %s\n %s %s' % (
-        cfg, spec['sample'], picks, lrows(obs['long']), draws, lrows(obs['base']), porows(po_full), porows(po_low), b(spy), trace, uin, uout)
+        cfg, spec['sample'], picks, 'xlong' if shared else lrows(obs['long']), draws, 'xbase' if shared else lrows(obs['base']),
+        porows(po_full), porows(po_low), b(spy), trace, uin, uout)
 
 
 # ------------------------------------------------------------------------------------------------ observation -> model inputs
@@ -401,20 +419,39 @@ class Broken(Exception):
     """the recorded stream does not have the shape the model assumes (a correspondence failure, reported as such)"""
 
 
-def frame_rows(fr, unc_col=True):
+def toint(x, what):
+    fr = exact(x)
+    if fr is None or fr.denominator != 1:
+        raise Broken('%s is %r, not an integer' % (what, x))
+    return int(fr)
+
+
+def tofrac(x, what):
+    fr = exact(x)
+    if fr is None:
+        raise Broken('%s is NaN' % what)
+    return fr
+
+
+def frame_rows(fr):
     out = []
     for rec in fr.to_dict('records'):
-        out.append({'uid': int(rec['uid_g_zepid']), 'id': int(rec['id']), 't_in': int(rec['t_in']), 't_out': int(rec['t_out']),
-                    'Y': int(rec['Y']), 'unc': int(rec['uncensored']) if unc_col else None, 'env': [exact(rec[v]) for v in VARS]})
+        out.append({'uid': toint(rec['uid_g_zepid'], 'uid_g_zepid'), 'id': toint(rec['id'], 'id'), 't_in': toint(rec['t_in'], 'time_in'),
+                    't_out': toint(rec['t_out'], 'time_out'), 'Y': toint(rec['Y'], 'outcome'), 'unc': toint(rec['uncensored'], 'uncensored'),
+                    'env': [tofrac(rec[v], v) for v in VARS]})
     return out
+
+
+_LONG = {}
 
 
 def digest(spec, df, res):
     """turn the spies' recordings into the model's inputs; raises Broken when the stream has an unexpected shape"""
     obs = {}
-    srt = df.sort_values(by=['id', 't_out'])
-    obs['long'] = [{k: (exact(v) if k in VARS else int(v)) for k, v in r.items() if k in VARS or k in ('id', 't_in', 't_out')}
-                   for r in df.to_dict('records')]
+    if _LONG.get('df') is not df:
+        _LONG.update(df=df, rows=[{'id': int(r['id']), 't_in': int(r['t_in']), 't_out': int(r['t_out']), 'env': [exact(r[v]) for v in VARS]}
+                                  for r in df.to_dict('records')])
+    obs['long'] = _LONG['rows']
     if len(res['samples']) != 1:
         raise Broken('DataFrame.sample called %d times' % len(res['samples']))
     recv, drawn, kw = res['samples'][0]
@@ -430,7 +467,6 @@ def digest(spec, df, res):
     obs['picks'] = [int(p) for p in pos]
     obs['base'] = [{'id': int(r['id']), 't_in': int(r['t_in']), 't_out': int(r['t_out']), 'env': [exact(r[v]) for v in VARS]}
                    for r in recv.to_dict('records')]
-    obs['first_rows_py'] = [int(i) for i in srt.groupby('id').head(1)['id']]
     # draws: calls per step in execution order
     ncov = len(COV_ORDERS.get(spec['covs'], []))
     has_exp = spec['plan'] in ('natural', 'custom')
@@ -477,9 +513,12 @@ def po_rows(spec, po):
     if list(po.columns) != expect_cols:
         return None, 'columns %r' % list(po.columns)
     rows = []
-    for rec in po.to_dict('records'):
-        rows.append((int(rec['uid_g_zepid']), int(rec['id']), int(rec['t_in']), int(rec['t_out']), int(rec['Y']),
-                     exact(rec['A']), tuple(exact(rec[c]) for c in covs)))
+    try:
+        for rec in po.to_dict('records'):
+            rows.append((toint(rec['uid_g_zepid'], 'uid'), toint(rec['id'], 'id'), toint(rec['t_in'], 'time_in'), toint(rec['t_out'], 'time_out'),
+                         toint(rec['Y'], 'outcome'), tofrac(rec['A'], 'exposure'), tuple(tofrac(rec[c], c) for c in covs)))
+    except Broken as e:
+        return None, 'a value that %s' % e
     return rows, None
 
 
@@ -534,7 +573,7 @@ def direct_invariants(spec, obs, res, T):
                     bad.append(('censor-at-tmax', 'uid %d not censored at t_max' % uid))
                 if h['Y'].iloc[-1] == 0 and u[-1] != 0:
                     bad.append(('unfinished', 'uid %d stops without event or censoring' % uid))
-                if lags_ok(LAGS[spec['lags']]) and LAGS[spec['lags']]:
+                if lags_ok(LAGS[spec['lags']]) and LAGS[spec['lags']] and 0 <= int(uid) < n:
                     b0 = dict(zip(VARS, base_by_pick[int(uid)]['env']))
                     prev = None
                     for rec in h.to_dict('records'):
@@ -552,45 +591,64 @@ def direct_invariants(spec, obs, res, T):
 
 
 # ------------------------------------------------------------------------------------------------ one case
+_BUILT = {}
+
+
 def run_case(spec):
-    """run the implementation (one or two fits); returns list of (lm, spec, obs, res) and early failures"""
+    """run the implementation (one or two fits on the same seed); returns (df, jobs, early failures)"""
     fails, jobs = [], []
-    df = gen_long(spec)
-    try:
-        g = build(spec, df)
-    except Exception as e:   # noqa
-        return None, [], 'nuisance: %s: %s' % (type(e).__name__, str(e)[:100])
+    key = repr([spec.get(k) for k in ('data_seed', 'n_ids', 'T_in', 'cont_L2', 'index', 'weights', 'covs', 'cens', 'itt_restriction', 'float_time')])
+    if _BUILT.get('key') == key:            # the exhaustive part refits nothing between draw streams
+        df, g = _BUILT['df'], _BUILT['g']
+    else:
+        df = gen_long(spec)
+        try:
+            with warnings.catch_warnings():
+                warnings.simplefilter('ignore')
+                g = build(spec, df)
+        except Exception as e:   # noqa
+            return None, [], 'nuisance: %s: %s' % (type(e).__name__, str(e)[:100])
+        _BUILT.update(key=key, df=df, g=g)
     modes = [spec['lm']] + ([not spec['lm']] if spec['paired'] else [])
     for lm in modes:
-        res = fit_once(spec, g, df, lm)
+        with warnings.catch_warnings():
+            warnings.simplefilter('ignore')
+            res = fit_once(spec, g, df, lm)
         res['lm'] = lm
+        payload = {'spec': spec, 'lm': lm}
         if 'error' in res:
-            fails.append((size_of(spec), 'MonteCarloGFormula.fit.raises',
-                          'fit(%s) raised %s' % (describe(spec, lm), res['error']), {'spec': spec, 'lm': lm, 'traceback': res['traceback']}))
+            payload['traceback'] = res['traceback']
+            fails.append((size_of(spec), 'MonteCarloGFormula.fit.raises', 'fit(%s) raised %s' % (describe(spec, lm), res['error']), payload))
             continue
         try:
             obs = digest(spec, df, res)
         except Broken as e:
-            fails.append((size_of(spec), 'MonteCarloGFormula.fit.draw-stream', 'fit(%s): %s' % (describe(spec, lm), e), {'spec': spec, 'lm': lm}))
+            fails.append((size_of(spec), 'MonteCarloGFormula.fit.draw-stream', 'fit(%s): %s' % (describe(spec, lm), e), payload))
             continue
+        rows, err = po_rows(spec, res['po'])
+        if err:
+            fails.append((size_of(spec), 'MonteCarloGFormula.fit.columns', 'fit(%s): predicted_outcomes has %s' % (describe(spec, lm), err), payload))
+            continue
+        res['rows'] = rows
         jobs.append((lm, obs, res))
     if len(jobs) == 2:
         a, c = jobs[0], jobs[1]
         full, low = (a, c) if not a[0] else (c, a)
-        # same seed => same draws; low-memory output = last record of every history of the full output
+        # same seed => same draws, same per-step frames; low-memory output = last record of every history of the full output
         same = len(full[2]['draws']) == len(low[2]['draws']) and all(
             x[0] == y[0] and np.array_equal(x[2], y[2]) for x, y in zip(full[2]['draws'], low[2]['draws']))
-        if not same or full[1]['picks'] != low[1]['picks']:
+        if not same or full[1]['picks'] != low[1]['picks'] or full[1]['trace'] != low[1]['trace']:
             fails.append((size_of(spec), 'MonteCarloGFormula.fit.low-memory-draws', 'fit(%s): the two low_memory settings consumed different draws '
-                          'from the same seed' % describe(spec, None), {'spec': spec}))
+                          'or simulated different rows from the same seed' % describe(spec, None), {'spec': spec}))
+            jobs = jobs[:1]
         else:
-            last = full[2]['po'].groupby('uid_g_zepid', sort=True).tail(1).reset_index(drop=True)
-            lo = low[2]['po']
-            if list(last.columns) != list(lo.columns) or len(last) != len(lo) or \
-                    not (last.astype(float).values == lo.astype(float).values).all():
+            last = {}
+            for r in full[2]['rows']:
+                last[r[0]] = r
+            if [last[k] for k in sorted(last)] != low[2]['rows']:
                 fails.append((size_of(spec), 'MonteCarloGFormula.fit.low-memory-last', 'fit(%s): low_memory output is not the last record of '
                               'every history of the full output' % describe(spec, None), {'spec': spec}))
-    return df, [(lm, obs, res, tmax_of(spec, df)[1]) for lm, obs, res in jobs], fails
+    return df, jobs, fails
 
 
 def size_of(spec):
@@ -603,134 +661,181 @@ def describe(spec, lm):
         d['treatment'] = rule_py(spec['rule'])
     if lm is not None:
         d['low_memory'] = lm
+    if spec.get('forced') is not None:
+        d['dictated 0/1 draws'] = ''.join(str(x) for x in spec['forced'])
     return ', '.join('%s=%r' % kv for kv in d.items())
 
 
-def compare(spec, lm, obs, res, T, coq, fails):
-    """model vs implementation, exactly"""
-    payload = {'spec': spec, 'lm': lm}
-    tag = describe(spec, lm)
-    size = size_of(spec)
-    base_c, full_c, low_c, step_uids, (spec_bits, lags_okb, lasts_ok) = coq
+SPEC_NAMES = ['uids-in-range', 'history-shape', 'plan-obeyed', 'lags-are-previous', 'id-of-sampled-row']
 
-    def conv(rows):
-        return [{'uid': r[0], 'id': r[1], 't_in': r[2], 't_out': r[3], 'Y': r[4], 'unc': r[5],
-                 'env': [Fraction(p[0], p[1]) for p in r[6]], 'seen': [Fraction(p[0], p[1]) for p in r[7]]} for r in rows]
-    full_m, low_m = conv(full_c), conv(low_c)
-    # (0) baseline table
-    base_m = [(r[0], r[1], r[2], [Fraction(p[0], p[1]) for p in r[3]]) for r in base_c]
-    base_i = [(r['id'], r['t_in'], r['t_out'], r['env']) for r in obs['base']]
-    if base_m != base_i:
-        fails.append((size, 'MonteCarloGFormula.fit.baseline-rows', 'fit(%s): the table rows are sampled from is not the first row (by time_out) '
-                      'of every id' % tag, payload))
-    # (1) predicted_outcomes
-    rows, err = po_rows(spec, res['po'])
-    covs = [c for _, c in COV_ORDERS.get(spec['covs'], [])]
-    model_rows = [(r['uid'], r['id'], r['t_in'], r['t_out'], r['Y'], r['env'][CODE['A']], tuple(r['env'][CODE[c]] for c in covs))
-                  for r in (low_m if lm else full_m)]
-    if err:
-        fails.append((size, 'MonteCarloGFormula.fit.columns', 'fit(%s): predicted_outcomes has %s' % (tag, err), payload))
-    elif rows != model_rows:
-        k = next((i for i, (x, y) in enumerate(zip(rows, model_rows)) if x != y), min(len(rows), len(model_rows)))
-        fails.append((size, 'MonteCarloGFormula.fit.predicted_outcomes',
-                      'fit(%s): predicted_outcomes has %d rows, model %d; first difference at row %d: implementation %s, model %s'
-                      % (tag, len(rows), len(model_rows), k, show(rows, k), show(model_rows, k)), payload))
-    # (2) per-step frames
+
+def compare(spec, jobs, T, coq, fails):
+    """read the Coq side's verdicts: model vs implementation (exact), and the specification on the implementation's rows"""
+    obs = jobs[0][1]
+    size = size_of(spec)
+    k_base, cmp_full, cmp_low, cmp_trace, (k_in, k_out, sizes), (spec_bits, lags_okb, k_lasts) = coq
+    tag0 = describe(spec, None)
+    if k_base != -1:
+        fails.append((size, 'MonteCarloGFormula.fit.baseline-rows', 'fit(%s): the table the individuals are sampled from differs at row %d from '
+                      'the first row (by time_out) of every id' % (tag0, k_base), {'spec': spec}))
+    for lm, _, res in jobs:
+        tag = describe(spec, lm)
+        payload = {'spec': spec, 'lm': lm}
+        k, n_model, n_impl, mrow = cmp_low if lm else cmp_full
+        if k == -2:
+            raise AssertionError('no implementation rows were passed for low_memory=%r' % lm)
+        if k != -1:
+            fails.append((size, 'MonteCarloGFormula.fit.predicted_outcomes',
+                          'fit(%s): predicted_outcomes has %d rows, the model %d; first difference at row %d: implementation %s, model %s '
+                          '[uid,id,time_in,time_out,outcome,uncensored,stacked %s,seen]' % (tag, n_impl, n_model, k, show(res['rows'], k), mrow, VARS), payload))
+        for key, what in direct_invariants(spec, obs, res, T)[:3]:
+            fails.append((size, 'MonteCarloGFormula.fit.invariant.' + key, 'fit(%s): %s' % (tag, what), payload))
+    payload = {'spec': spec, 'lm': jobs[0][0]}
+    if sizes != obs['sizes']:
+        fails.append((size, 'MonteCarloGFormula.fit.at-risk-count', 'fit(%s): _predict was called on %r rows per step, the model keeps %r '
+                      'event-free uncensored rows' % (tag0, obs['sizes'], sizes), payload))
     if obs['trace_steps'] is not None:
-        imp_uids = [[r['uid'] for r in st] for st in obs['trace_steps']]
-        in_uids = [[r['uid'] for r in st] for st in obs['in_steps']]
-        if imp_uids != step_uids or in_uids != step_uids:
-            s = next((i for i in range(min(len(imp_uids), len(step_uids))) if imp_uids[i] != step_uids[i] or in_uids[i] != step_uids[i]), -1)
-            fails.append((size, 'MonteCarloGFormula.fit.at-risk-set', 'fit(%s): rows simulated at step %d differ from the rows still '
-                          'event-free and uncensored' % (tag, s), payload))
-        else:
-            mt = [(r['uid'], r['id'], r['t_in'], r['t_out'], r['Y'], r['unc'], r['seen']) for r in full_m]
-            it = [(r['uid'], r['id'], r['t_in'], r['t_out'], r['Y'], r['unc'], r['env']) for r in obs['trace']]
-            if mt != it:
-                k = next((i for i, (x, y) in enumerate(zip(it, mt)) if x != y), min(len(it), len(mt)))
-                fails.append((size, 'MonteCarloGFormula.fit.step-rows', 'fit(%s): row %d of the per-step frames (at out_recode): implementation %s, '
-                              'model %s  [columns uid,id,t_in,t_out,Y,uncensored,%s]' % (tag, k, show(it, k), show(mt, k), VARS), payload))
-            # rows entering a step carry the columns as stacked at the end of the previous step (lag update applied)
-            prev = {}
-            by_key = {(r['uid'], r['t_in']): r for r in full_m}
-            bp = [obs['base'][p] for p in obs['picks']]
-            for s, st in enumerate(obs['in_steps']):
-                for r in st:
-                    want = bp[r['uid']]['env'] if s == 0 else by_key.get((r['uid'], s - 1), {}).get('env')
-                    if r['env'] != want:
-                        prev.setdefault('bad', (s, r['uid'], r['env'], want))
-            if 'bad' in prev:
-                s, u, got, want = prev['bad']
-                fails.append((size, 'MonteCarloGFormula.fit.carried-columns', 'fit(%s): uid %d enters step %d with columns %s, model carries %s [%s]'
-                              % (tag, u, s, fmt(got), fmt(want) if want else None, VARS), payload))
-        # (3) the specification evaluated in Coq on the implementation's rows
-        names = ['uids-in-range', 'history-shape', 'plan-obeyed', 'lags-are-previous', 'id-of-sampled-row']
-        for name, bit in zip(names, spec_bits):
+        if k_in != -1 or k_out != -1:
+            fails.append((size, 'MonteCarloGFormula.fit.at-risk-set', 'fit(%s): the rows simulated at step %d are not the rows still event-free '
+                          'and uncensored (in frame order)' % (tag0, max(k_in, k_out)), payload))
+        k, n_model, n_impl, mrow = cmp_trace
+        if k != -1:
+            fails.append((size, 'MonteCarloGFormula.fit.step-rows', 'fit(%s): row %d (by uid, time_in) of the per-step frames seen at out_recode: '
+                          'implementation %s, model %s [uid,id,time_in,time_out,outcome,uncensored,%s] (%d vs %d rows)'
+                          % (tag0, k, show_tr(obs['trace'], k), mrow, VARS, n_impl, n_model), payload))
+        # the specification evaluated in Coq on the implementation's rows
+        for name, bit in zip(SPEC_NAMES, spec_bits):
             if name == 'lags-are-previous' and not lags_okb:
                 continue
             if not bit:
                 fails.append((size, 'MonteCarloGFormula.fit.spec.' + name, 'fit(%s): the Coq specification `%s` is false on the rows the '
-                              'implementation simulated' % (tag, name), payload))
-    if not lasts_ok:
-        fails.append((size, 'model.lasts', 'model: low-memory run is not the last record of each history of the full run (%s)' % tag, payload))
+                              'implementation simulated' % (tag0, name), payload))
+    if k_lasts != -1:
+        fails.append((size, 'model.lasts', 'model: low-memory run differs at row %d from the last record of each history of the full run (%s)'
+                      % (k_lasts, tag0), payload))
     if bool(lags_okb) != lags_ok(LAGS[spec['lags']]):
         fails.append((size, 'harness.lags_ok', 'python and Coq disagree on lags_ok', payload))
-    # (4) direct invariants
-    for key, what in direct_invariants(spec, obs, res, T)[:3]:
-        fails.append((size, 'MonteCarloGFormula.fit.invariant.' + key, 'fit(%s): %s' % (tag, what), payload))
-
-
-def fmt(v):
-    return [str(x) for x in v]
 
 
 def show(rows, k):
     if k >= len(rows):
-        return '<none>'
-    return str(tuple(fmt(x) if isinstance(x, (list, tuple)) else (str(x) if isinstance(x, Fraction) else x) for x in rows[k]))
+        return '<no such row>'
+    return str(tuple([str(y) for y in x] if isinstance(x, (list, tuple)) else (str(x) if isinstance(x, Fraction) else x) for x in rows[k]))
+
+
+def show_tr(rows, k):
+    if k >= len(rows):
+        return '<no such row>'
+    r = rows[k]
+    return str((r['uid'], r['id'], r['t_in'], r['t_out'], r['Y'], r['unc'], [str(x) for x in r['env']]))
+
+
+def collect(ctx, spec, fails, work, exprs, shared=False):
+    df, jobs, early = run_case(spec)
+    ctx.evaluations += 1
+    if df is None:
+        ctx.count('skipped:nuisance-model-did-not-fit')
+        if len(ctx.notes) < 5:
+            ctx.notes.append('skipped: ' + early)
+        return None
+    fails.extend(early)
+    if not jobs:
+        return None
+    T = tmax_of(spec, df)[1]
+    ctx.oracle_checks += len(jobs)      # DataFrame.sample returned `sample` rows of its receiver; exposure/outcome/censoring draws are 0/1
+    rows = {lm: res['rows'] for lm, _, res in jobs}
+    work.append((spec, jobs, T))
+    exprs.append(coq_case(spec, jobs[0][1], T, rows.get(False), rows.get(True), shared))
+    return jobs
+
+
+def evaluate(ctx, work, exprs, fails, preamble, shard, tag='c13', detail=True):
+    res_coq, errs = coq_eval(ctx, tag, ['Zepid.Model.MonteCarlo'], exprs, shard=shard, preamble=preamble, timeout=900)
+    if errs:
+        ctx.broken_ties.append('coq evaluation failed: ' + errs[0][1][-600:])
+    for (spec, jobs, T), rc in zip(work, res_coq):
+        if rc is None:
+            continue
+        obs = jobs[0][1]
+        for lm, _, res in jobs:
+            ctx.programs += 1
+            ctx.disagreements_checked += 1
+            ctx.nontriv([spec, lm])
+            ctx.count('low_memory:%s' % lm)
+            ctx.count('records', len(res['po']))
+        if detail:
+            for k in ('plan', 'covs', 'lags', 'cens', 't_max', 'spy', 'cont_L2', 'weights', 'index', 'paired', 'float_time'):
+                ctx.count('%s:%s' % (k, spec.get(k)))
+            ctx.count('sample<=50' if spec['sample'] <= 50 else 'sample<=150' if spec['sample'] <= 150 else 'sample=300')
+            ctx.sample({'config': describe(spec, jobs[0][0]), 'steps': T, 'at_risk_per_step': obs['sizes'], 'rows_out': len(jobs[0][2]['po']),
+                        'events': int(jobs[0][2]['po']['Y'].sum())}, cap=3)
+        ctx.count('draw-vectors', len(jobs[0][2]['draws']))
+        ctx.count('unit-steps', sum(obs['sizes']))
+        compare(spec, jobs, T, rc, fails)
 
 
 def process(ctx, specs, fails):
     work, exprs = [], []
     for spec in specs:
-        df, jobs, early = run_case(spec)
-        ctx.evaluations += 1
-        if df is None:
-            ctx.count('skipped:nuisance-model-did-not-fit')
-            ctx.notes.append('skipped: ' + early) if len(ctx.notes) < 5 else None
+        collect(ctx, spec, fails, work, exprs)
+    evaluate(ctx, work, exprs, fails, PREAMBLE, shard=1 if len(exprs) <= 48 else 4)
+
+
+# ------------------------------------------------------------------------------------------------ every draw stream of tiny runs
+EXHAUSTIVE = {   # name: (tier, spec overrides): every 0/1 draw stream is dictated to _predict, depth-first
+    'two-units-natural-censoring': ('quick', {'plan': 'natural', 'covs': 'none', 'cens': True, 'lags': 'simple', 'sample': 2, 't_max': 2}),
+    'one-unit-custom-covariate-two-steps': ('quick', {'plan': 'custom', 'rule': ['or', ['eq', 'L1', 1], ['eq', 'lag_A', 1]], 'covs': 'one',
+                                                      'cens': True, 'lags': 'chain', 'sample': 1, 't_max': 2}),
+    'one-unit-custom-covariate': ('thorough', {'plan': 'custom', 'rule': ['or', ['eq', 'L1', 1], ['eq', 'lag_A', 1]], 'covs': 'one', 'cens': True,
+                                               'lags': 'chain', 'sample': 1, 't_max': 3}),
+    'three-units-all': ('thorough', {'plan': 'all', 'covs': 'none', 'cens': True, 'lags': 'simple', 'sample': 3, 't_max': 2}),
+    'two-units-none-three-steps': ('thorough', {'plan': 'none', 'covs': 'none', 'cens': True, 'lags': 'chain', 'sample': 2, 't_max': 3}),
+    'two-units-custom-covariate': ('thorough', {'plan': 'custom', 'rule': ['and', ['eq', 'L1', 1], ['not', ['eq', 'lag2_A', 1]]], 'covs': 'one',
+                                                'cens': False, 'lags': 'chain', 'sample': 2, 't_max': 2}),
+}
+
+
+def exhaustive_part(ctx, fails):
+    for name, (tier, over) in EXHAUSTIVE.items():
+        if tier == 'thorough' and ctx.quick:
             continue
-        fails.extend(early)
-        for lm, obs, res, T in jobs:
-            work.append((spec, lm, obs, res, T))
-            exprs.append(coq_case(spec, obs, T))
-    res_coq, errs = coq_eval(ctx, 'c13', ['Zepid.Model.MonteCarlo'], exprs, shard=1 if len(exprs) <= 64 else 4, preamble=PREAMBLE, timeout=900)
-    if errs:
-        ctx.broken_ties.append('coq evaluation failed: ' + errs[0][1][-600:])
-    for (spec, lm, obs, res, T), rc in zip(work, res_coq):
-        if rc is None:
-            continue
-        ctx.programs += 1
-        ctx.disagreements_checked += 1
-        ctx.nontriv([spec, lm])
-        for k in ('plan', 'covs', 'lags', 'cens', 't_max', 'spy', 'cont_L2', 'weights', 'index'):
-            ctx.count('%s:%s' % (k, spec[k]))
-        ctx.count('low_memory:%s' % lm)
-        ctx.count('sample<=50' if spec['sample'] <= 50 else 'sample<=150' if spec['sample'] <= 150 else 'sample=300')
-        ctx.count('records', len(res['po']))
-        ctx.count('draws', sum(obs['sizes']))
-        ctx.sample({'config': describe(spec, lm), 'steps': T, 'at_risk_per_step': obs['sizes'], 'rows_out': len(res['po']),
-                    'events': int(res['po']['Y'].sum())}, cap=3)
-        compare(spec, lm, obs, res, T, rc, fails)
+        base = {'data_seed': ctx.rng.randrange(2 ** 31), 'np_seed': ctx.rng.randrange(2 ** 31), 'n_ids': 40, 'T_in': 3, 'cont_L2': False,
+                'index': 'range', 'weights': False, 'spy': True, 'itt_restriction': False, 'paired': False, 'lm': False}
+        base.update(over)
+        work, exprs, bits, k, defs = [], [], [], 0, None
+        while True:
+            spec = dict(base, forced=list(bits), lm=bool(k % 2), paired=(k % 5 == 0))
+            jobs = collect(ctx, spec, fails, work, exprs, shared=True)
+            if jobs is None:
+                break
+            if defs is None:
+                defs = coq_case(spec, jobs[0][1], 0, None, None, shared='defs')
+            m = jobs[0][2]['consumed']
+            used = (list(bits) + [0] * m)[:m]
+            while used and used[-1] == 1:
+                used.pop()
+            k += 1
+            if not used or k > 20000:
+                break
+            used[-1] = 1
+            bits = used
+        ctx.count('exhaustive:%s:streams' % name, k)
+        if work:
+            evaluate(ctx, work, exprs, fails, PREAMBLE + defs, shard=max(8, len(exprs) // 16 + 1), tag='c13x_' + name.replace('-', '_'), detail=False)
 
 
 def run(ctx):
+    import time
+    warnings.showwarning = lambda *a, **k: None      # statsmodels re-enables its rank/convergence warnings
     n = 40 if ctx.quick else 400
     specs = [gen_spec(ctx.rng, k, ctx.quick) for k in range(n)]
     fails = []
-    for i in range(0, len(specs), 100):
-        process(ctx, specs[i:i + 100], fails)
-    if DEV_PATCH:
-        ctx.notes.append('VERIF_C13_DEVPATCH=1 (development only)')
+    t0 = time.time()
+    for i in range(0, len(specs), 80):
+        process(ctx, specs[i:i + 80], fails)
+    t1 = time.time()
+    exhaustive_part(ctx, fails)
+    ctx.notes.append('random runs %.0fs, exhaustive tiny runs %.0fs' % (t1 - t0, time.time() - t1))
     report(ctx, fails)
 
 
@@ -752,7 +857,6 @@ def replay(ctx, payload):
         if payload.get('lm') is not None and not spec.get('paired'):
             spec['lm'] = payload['lm']
         process(ctx, [spec], fails)
+        report(ctx, fails)
     else:
         run(ctx)
-        return
-    report(ctx, fails)
